@@ -130,8 +130,8 @@ func TestVerif_C16_h3fields(t *testing.T) {
 	s := verifh.New(t, "C16", "h3fields",
 		"same generator as h2fields (methods, URLs, Host override, 0..60 header keys in all spellings, header and pseudo-header order lists, body kinds, gzip) against the HTTP/3 request writer; non-trivial = a field list was produced")
 	need := map[string]int{}
-	c16LaneH3(t, s, "order", verifh.N(2500, 80000), need)
-	c16LaneH3(t, s, "plain", verifh.N(800, 30000), need)
+	c16LaneH3(t, s, "order", verifh.N(4000, 80000), need)
+	c16LaneH3(t, s, "plain", verifh.N(1500, 30000), need)
 	for _, b := range []string{"ok", "err:host", "err:header", "header-order", "pseudo-order"} {
 		if need[b] == 0 {
 			t.Errorf("lane did not reach bucket %q", b)
